@@ -93,16 +93,25 @@ def _run(cmd, cwd, log, env=None):
     return r.returncode
 
 
-def _prune(prefix, keep):
-    """LRU: keep at most `keep` directories whose name starts with prefix."""
+def _prune(prefix, keep, min_age_s=3 * 3600):
+    """LRU: keep at most `keep` directories whose name starts with prefix - but never remove one used in the last
+    `min_age_s` seconds (another check running concurrently may be executing binaries from it)."""
     try:
         ds = [os.path.join(WORK, d) for d in os.listdir(WORK) if d.startswith(prefix) and not d.endswith('.lock')
               and os.path.isdir(os.path.join(WORK, d))]
     except OSError:
         return
-    ds.sort(key=lambda p: os.path.getmtime(p), reverse=True)
+    now = time.time()
+
+    def mt(p):
+        try:
+            return os.path.getmtime(p)
+        except OSError:
+            return 0
+    ds.sort(key=mt, reverse=True)
     for p in ds[keep:]:
-        shutil.rmtree(p, ignore_errors=True)
+        if now - mt(p) > min_age_s:
+            shutil.rmtree(p, ignore_errors=True)
 
 
 def core(flavour):
@@ -135,7 +144,7 @@ def core(flavour):
         # cmake's RPATH points at tmp/lib, so callers always set LD_LIBRARY_PATH (see env()).
         open(os.path.join(tmp, '.ok'), 'w').write('%s %.1fs\n' % (tree_hash(), time.time() - t0))
         os.rename(tmp, bdir)
-        _prune('core-%s-' % flavour, 2)
+        _prune('core-%s-' % flavour, 3, 6 * 3600)
         sys.stderr.write('[build] %s built in %.1fs\n' % (name, time.time() - t0))
         return bdir
     finally:
@@ -299,7 +308,7 @@ def parallel_schema_libs(flavour, texts, harnesses=(), lazy=False, jobs=None):
     with ThreadPoolExecutor(jobs) as ex:
         got = dict(zip(uniq, ex.map(lambda t: schema_lib(flavour, t, harnesses, lazy, tag='batch'), uniq)))
     res = [got[t] for t in texts]
-    _prune('sch-', 200)
+    _prune('sch-', 600)
     return res
 
 
